@@ -86,9 +86,9 @@ def step (st : DS) : List String → DS × String
     | none, some _, some _ => (st, "reject")
     | _, _, _ => (st, "bad-op")
   | ["split", keep] => match st.db, parsePairs? keep with
-    | some db, some keep => match split db keep with
-      | some db' => ({ st with db := some db' }, "ok")
-      | none => (st, "reject")
+    | some db, some keep =>
+      let r := splitOp db keep
+      ({ st with db := some r.1 }, if r.2 then "ok" else "reject")
     | none, some _ => (st, "reject")
     | _, _ => (st, "bad-op")
   | ["close", ok] => match st.db, parseBool? ok with
